@@ -83,6 +83,14 @@ def r2_harness(ctx):
             ctx.check(calls_f, 'closure-under-catch_unwind', 'the callback runs inside the catch_unwind scope', cu[0].where())
             w = fe.writes_to_field(PF)
             okw = any(any(x[0] == 'call' and x[1] == 'std::panic::catch_unwind' for x in walk(fe.expr_rvalue(st['r'], b, i))) for b, i, st in w)
+            if not okw:
+                # functional form: exec returns a fresh Harness { <payload field>: catch_unwind(..).err(), .. }
+                for _, rt in ret_trees(fe):
+                    for x in walk(rt):
+                        if x[0] == 'agg' and str(x[1]).replace('adt:', '').startswith(H + '::') and len(x) > 3 and PF in x[3]:
+                            v = x[2][list(x[3]).index(PF)]
+                            if any(y[0] == 'call' and y[1] == 'std::panic::catch_unwind' for y in walk(v)):
+                                okw = True
             ctx.check(okw, 'payload-recorded', 'the unwind payload is recorded in the harness', fe.where())
     fc = ctx.anchor(H + '::catch')
     if not fc:
